@@ -180,3 +180,29 @@ fn c01_chain_get_mut_and_conflict() {
     kani::cover!(!vis1 && vis0 && by0 == me);
     std::mem::forget(ch);
 }
+
+//@ property: C01
+//@ tier: quick
+//@ cap_s: 300
+//@ mem_gb: 8
+//@ encodes: VersionChain::{with_initial,mark_deleted,visible_at,visible_to,version_count}, VersionInfo::mark_deleted
+//@ symbolic: created epoch and creator of the single version, the epochs of a first and of a second (stale or later) delete, viewer epoch and tx
+//@ bound: chains of exactly 1 version (what the store keeps per node / edge), two mark_deleted calls
+//@ oracle: the first delete succeeds; a second delete of the already deleted entity reports false and changes no viewer's answer (a stale writer cannot rewrite the deletion epoch a reader's snapshot depends on)
+#[kani::proof]
+#[kani::unwind(4)]
+fn c01_chain_second_delete_changes_no_view() {
+    let (c, by, d1, d2, e, tx): (u64, u64, u64, u64, u64, u64) = (kani::any(), kani::any(), kani::any(), kani::any(), kani::any(), kani::any());
+    let mut ch: VersionChain<u8> = VersionChain::with_initial(7, EpochId::new(c), TxId::new(by));
+    assert!(ch.mark_deleted(EpochId::new(d1)));
+    let before_at = ch.visible_at(EpochId::new(e)).copied();
+    let before_to = ch.visible_to(EpochId::new(e), TxId::new(tx)).copied();
+    assert!(before_at == if spec_visible_at(c, Some(d1), e) { Some(7) } else { None });
+    let again = ch.mark_deleted(EpochId::new(d2));
+    assert!(!again, "deleting an already deleted single-version entity reported success");
+    assert!(ch.visible_at(EpochId::new(e)).copied() == before_at, "a second delete changed what a snapshot sees");
+    assert!(ch.visible_to(EpochId::new(e), TxId::new(tx)).copied() == before_to, "a second delete changed what a transaction sees");
+    assert!(ch.version_count() == 1);
+    kani::cover!(before_at.is_some() && d2 <= e);
+    std::mem::forget(ch);
+}
